@@ -589,7 +589,13 @@ def send_limits(S, D, N):
     b_peer_l = Binding('get_next_commitment_stats', [z3.BoolVal(True), pf, V.t, pS, n1] + mflat + [z3.BoolVal(False), a.t, z3.IntVal(0), fr.t, z3.BoolVal(False), z3.IntVal(0), z3.IntVal(0), cdust.t, tag],
                        [z3.If(p_local_ok, 0, 1), None, None, None], line_fn=cand_line, parse=lambda t: [int(t[0]), None, None, None])
     binds = [b_bal, b_peer, b_peer_l]
-    S.witness('C01.e.witness', E, pre + [in_range, n == N, a.t > 1000000, tag == 0])
+    # hinted witness: the satisfiability of pre /\ in_range is shown on a nearly concrete state (a model of the
+    # stronger formula is a model of the weaker one); the unhinted query took 7 s .. > 300 s depending on the seed
+    hints = [V.t == 10_000_000, Sv.t == 5_000_000_000, fr.t == 1000, X.zbool(funder.t), cdust.t == 354, maxdust.t == 5_000_000_000,
+             cv['counterparty_selected_channel_reserve_satoshis'].t == 100_000, cv['holder_selected_channel_reserve_satoshis'].t == 100_000,
+             cv['counterparty_htlc_minimum_msat'].t == 1, cv['counterparty_max_htlc_value_in_flight_msat'].t == 10_000_000_000,
+             cv['counterparty_max_accepted_htlcs'].t == 483] + [x == 2_000_000 for x in amt]
+    S.witness('C01.e.witness', E, pre + hints + [in_range, n == N, a.t > 1000000, tag == 0])
     S.no_panic('C01.e.balances_nopanic', E, pre, 'get_available_balances reaches no panic on any valid quiescent state', [b_bal], only=lambda p: p in bal_panics, split=case)
     S.prove('C01.e.peer_accepts_amounts', E, pre + [in_range], z3.And(p_remote_ok, p_local_ok),
             'for every amount inside the reported [minimum, limit] the peer\'s next-commitment computations (their view of our commitment and their own commitment, with the HTLC added) succeed: neither side overdraws, the funder covers the fee, each commitment keeps an output',
